@@ -14,7 +14,7 @@ import (
 
 func init() {
 	Register("C17", "Decides structural necessary conditions of 'enum rule files mean the same as the inline enum': (grammar) the enum scanner, extracted as a pushdown system like the JSON scanner, accepts - on inputs without annotations - exactly `[` comma-separated JSON scalars without exponent `]`: lock-step product with a reference recogniser over all bytes except the annotation opener outside strings; (clone) the duplicate-detection key of rule files equals the one of inline enums; (kind) the literal classifier used for rule files is order-independent and agrees with the schema-side classifier; (nopanic) element accesses of the enum package are guarded (the enum notation has no recover). Does NOT decide annotations inside rule files, nor verdict/example equality of `enum: @name` vs the inline list for all lists.",
-		c17grammar, c17clone, guessRules("C17.kind"), c17nopanic, c17rulename, func(c *core.Ctx) { emptyCommentAs(c, "C17.emptycomment") }, asciiBlankRule("C17.asciiblank"), c17empty, strClassRule("C17.strclass"), func(c *core.Ctx) { c14styleAs(c, "C17.style") }, noInplaceRule("C17.noinplace"), eofSiblingRule("C17.eofsibling"), slashEOFRule("C17.slasheof", "(*rules/enum.scanner).switchToAnnotation", []string{"(*rules/enum.scanner).stateAnyAnnotationStart"}, "(*rules/enum.scanner).processTail"))
+		c17grammar, c17clone, guessRules("C17.kind"), c17nopanic, c17rulename, func(c *core.Ctx) { emptyCommentAs(c, "C17.emptycomment") }, asciiBlankRule("C17.asciiblank"), c17empty, strClassRule("C17.strclass"), freshResultRule("C17.fresh"), func(c *core.Ctx) { c14styleAs(c, "C17.style") }, noInplaceRule("C17.noinplace"), eofSiblingRule("C17.eofsibling"), slashEOFRule("C17.slasheof", "(*rules/enum.scanner).switchToAnnotation", []string{"(*rules/enum.scanner).stateAnyAnnotationStart"}, "(*rules/enum.scanner).processTail"))
 }
 
 // reference: array of scalars without exponent, no nesting.
